@@ -1656,6 +1656,8 @@ def leading_dot_alternative(ast):
     def first(n):
         k = n[0]
         if is_leaf(n) or k in ('eps', 'bol', 'eol'): return False
+        if k == 'rep' and n[4] == '?' and n[5] and starts_with_dot(n[1]):
+            return True         # X?? is parsed as the alternation (|X)
         if k in ('grp', 'rep'): return first(n[1])
         if k == 'alt':
             return any(starts_with_dot(c) for c in n[1][1:]) or any(first(c) for c in n[1])
